@@ -113,6 +113,17 @@ CLAIMS = {
        "the values' paths (operators.rs clones, eval_context.rs report builder), unresolved `traversed_to` / `remaining_query`. No Kani "
        "harness serves this property in the quick tier.",
   design="0b/C10"),
+ "C11": dict(
+  text="Bounded symbolic execution (MIR; std parsers modelled as fallible calls; z3+cvc5) of the loader's scalar typing: "
+       "Loader::handle_scalar_event - an untagged scalar that is not plain (quoted / block) is always a String; an untagged plain scalar "
+       "is Int iff it parses as i64, else Float iff it parses as f64, else Bool iff it parses as bool, else Null iff it is `~` / `null` "
+       "in any case, else String; the typed value is the parser's result, carries the scalar's own location, and exactly one value is "
+       "pushed; handle_type_ref - !!bool / !!int / !!float / !!null give the parsed value, an unparsable !!int / !!float is a BadValue "
+       "(rejected), any other tag a String.",
+  note="This is the typing cascade of the validate loader only. NOT covered: what str::parse::<i64|f64|bool> accept (e.g. `inf`, `nan`, "
+       "`+1` are accepted by Rust's parsers), agreement with serde_yaml / serde_json used by `test` and the library API, short-form "
+       "intrinsic tags (string tables), aliases and non-string keys, key/list order, libyaml itself. No Kani harness serves this property.",
+  design="0b/C11"),
  "C12": dict(
   text="Bounded symbolic execution (MIR, callees modelled, value identities tracked; z3+cvc5) of the three validate loops that pair "
        "rules files with documents: CommonStructuredReporter::report (<=2 documents x <=2 rules files), get_test_case (JUnit path) "
@@ -181,12 +192,11 @@ CLAIMS = {
   design="4/C18"),
 }
 
-MIR_ONLY = {"C10", "C12", "C15"}
+MIR_ONLY = {"C10", "C11", "C12", "C15"}
 
 NA = {
  "C05": "needs fresh hash seeds/processes; symbolic SipHash keys through hashbrown and the serde/console writers are beyond CBMC (a HashMap with unknown keys timed out at 10 min on two inserts)",
  "C07": "whole-program cross-format property over serde_json/serde_yaml/quick-xml/clap/file I/O; no bounded kernel the solver can be pointed at",
- "C11": "unsafe-libyaml (transpiled C) + serde_yaml text parsing and str::parse::<f64> on symbolic bytes are not feasible CBMC targets; the equivalence is across three loaders",
  "C14": "nom/LocatedSpan combinators do not terminate under CBMC even on a 2-byte symbolic input (18 min, 7 GB); the parser is outside this technique on this image",
  "C19": "serde template parsing + string building + the full parser and evaluator round trip; whole-program",
 }
@@ -227,7 +237,7 @@ def main():
         "engines": [
             {"name": "kani-cbmc", "path": "/verif/check", "serves_properties": sorted(set(CLAIMS) - MIR_ONLY),
              "kind_free_text": "Kani 0.68 (rustc MIR -> goto-program) + CBMC 6.11 (symbolic execution, bit-blasting, CaDiCaL) over the real cfn-guard crate; counterexamples replayed natively with cargo kani playback"},
-            {"name": "mir-smt", "path": "/verif/lib/mirsmt.py", "serves_properties": ["C01", "C02", "C03", "C04", "C06", "C08", "C09", "C10", "C12", "C13", "C15", "C16", "C17", "C18"],
+            {"name": "mir-smt", "path": "/verif/lib/mirsmt.py", "serves_properties": ["C01", "C02", "C03", "C04", "C06", "C08", "C09", "C10", "C11", "C12", "C13", "C15", "C16", "C17", "C18"],
              "kind_free_text": "nightly -Zunpretty=mir dump of the current tree; lib/mirsmt.py (loop-free kernels, havoc-mode overflow/negate site search), lib/mirexec.py (bounded path enumeration with call models, loop unrolling, value identities) and lib/miragg.py / mirblocks.py / mirflow.py (aggregation, memoisation, index, negation-flow, block, operator-layer, wiring and exit-code obligations) emit SMT-LIB2 decided by z3 4.8.12 and cvc5 1.0 (must agree); candidates are replayed through the real CLI built from the scratch copy"},
         ],
         "checks": checks,
